@@ -16,6 +16,8 @@ struct C06World {
   std::vector<int> peer_fd;
   std::vector<int> rx_count;
   json replies;
+  coap_session_t *failing = nullptr;     // set while coap_session_disconnected() runs for that session
+  std::set<coap_session_t *> failed;
 };
 C06World *g = nullptr;
 
@@ -28,6 +30,9 @@ void nack_cb(coap_session_t *s, const coap_pdu_t *sent, const coap_nack_reason_t
   // informational; the message stays queued and goes on being retransmitted): not an outcome either, the exchange must still end
   // in exactly one of ACK / RST / TOO_MANY_RETRIES on the unchanged schedule.
   if (reason == COAP_NACK_ICMP_ISSUE) { g->w.count("probe.nack_icmp_issue"); return; }
+  // a request already acknowledged by an Empty ACK that still waits for its response is reported when its session fails: that
+  // NACK concerns the pending response, not the concluded transmission
+  if (g->failing == s && g->r3->acked(0, s, mid)) { g->w.count("probe.nack_for_pending_response"); return; }
   g->r3->on_nack(0, s, mid, reason);
 }
 coap_response_t resp_cb(coap_session_t *s, const coap_pdu_t *, const coap_pdu_t *rcv, const coap_mid_t mid) {
@@ -110,6 +115,12 @@ struct C06 : Property {
           else if (x < 0.20) faults.push_back({{"link", link}, {"idx", k}, {"act", "delay"}, {"delay_us", {r.range(0, (int64_t)at * 2000)}}});
         }
     }
+    // "several messages and sessions sharing one send queue": a session of the context may fail (the application, or a transport
+    // layer, calls coap_session_disconnected) while the others still have Confirmables queued - theirs stay on schedule
+    json fails = json::array();
+    if (index >= 1024 && cfg.value("n_sess", 1) > 1 && r.chance(0.3))
+      fails.push_back({{"t_ms", r.chance(0.5) ? r.range(0, 3000) : r.range(3000, (int64_t)cfg.value("at_milli", 2000) * 6)}, {"sess", r.below((uint64_t)cfg.value("n_sess", 1))}});
+    p["fails"] = fails;
     // A fifth of the random plans put libcoap in the server role: the Confirmable is a notification that libcoap creates itself
     // inside its I/O loop (one observer, one change per exchange), subject to the same schedule, outcome and wake-up rules.
     if (index >= 1024 && r.chance(0.2)) {
@@ -128,7 +139,7 @@ struct C06 : Property {
     return p;
   }
 
-  std::vector<std::string> shrink_keys() override { return {"faults", "replies", "ops"}; }
+  std::vector<std::string> shrink_keys() override { return {"faults", "replies", "ops", "fails"}; }
 
   static void hnd_obs(coap_resource_t *, coap_session_t *, const coap_pdu_t *, const coap_string_t *, coap_pdu_t *response) {
     coap_pdu_set_code(response, COAP_RESPONSE_CODE_CONTENT);
@@ -332,6 +343,19 @@ struct C06 : Property {
       simk::Datagram junk;
       while (simk::raw_recv(foreign_fd, junk)) {}
     });
+    for (auto &f : plan.value("fails", json::array())) {
+      int si = f.value("sess", 0) % n_sess;
+      w.at_ns(w.now() + (uint64_t)f.value("t_ms", 0) * 1000000ull + 1, [&cw, &w, si]() {
+        coap_session_t *s = cw.sess[(size_t)si];
+        if (cw.failed.count(s)) return;
+        cw.failed.insert(s);
+        w.count("fault.session_failed");
+        w.log("FAIL session %d", si);
+        cw.failing = s;
+        coap_session_disconnected(s, COAP_NACK_NOT_DELIVERABLE);
+        cw.failing = nullptr;
+      }, 0);
+    }
     // workload
     int opn = 0;
     for (auto &op : plan["ops"]) {
